@@ -53,6 +53,14 @@ def run(ctx):
                    "%s' = if %s == self.nside { self.nside_minus_1 } else { %s }" % (name, name, name) if raw is not None else "clamp not recognised: %s / gate %s" % (show(term), g and [show(x)[:60] for x in g]), at=bld[0].at, kind="N")
         if raw is None: continue
         # P3 truncation + P2 scaling chain
+        # the scaled value may be guarded for zero: `if s == 0.0 { s } else { from_bits(to_bits(s) + k) }` (0 * 2^k = 0)
+        if raw[0] == 'cast' and raw[1] == 'float_to_int' and raw[3][0] == 'phi':
+            gz = e.phi_gate.get(raw[3])
+            if gz is not None and gz[0][0] == 'op' and gz[0][1] in ('eq', 'ne') and C('f64', 0) in (gz[0][3], gz[0][4]):
+                s0 = gz[0][3] if gz[0][4] == C('f64', 0) else gz[0][4]
+                zero_side, other_side = (gz[1], gz[2]) if gz[0][1] == 'eq' else (gz[2], gz[1])
+                if zero_side in (s0, C('f64', 0)) and other_side[0] == 'call' and other_side[1] == FROM_BITS and any(x == s0 for x in walk(other_side)):
+                    raw = ('cast', raw[1], raw[2], other_side)
         ok3 = raw[0] == 'cast' and raw[1] == 'float_to_int' and raw[2] == 'u32' and raw[3][0] == 'call' and raw[3][1] == FROM_BITS
         ctx.report("P3-truncation", "%s:%s=from_bits(..) as u32" % (HV2, name), ok3, "%s = %s" % (name, show(raw)[:150]), at=bld[0].at, kind="N")
         if not ok3: continue
